@@ -13,7 +13,7 @@ for i in range(1, 20):
     pid = "C%02d" % i
     prop = open(os.path.join(here, "prompts/prop_%s.txt" % pid)).read().strip()
     prev = []
-    for w in "abcdefghijklmnop":
+    for w in "abcdefghijklmnopqrstuvwxyz":
         if w == wave:
             break
         mp = "/verif/seeded/%s-%s/meta.json" % (pid, w)
